@@ -100,9 +100,9 @@ def iOf : Val → Int | .i v => v | _ => 0
 def mkS (l : List Char) : Val := .s (String.ofList l)
 
 /-! ## arrays -/
-def arrayValue (dflt : Val) : List Val → Val
-  | k :: v :: rest => (arrayValue dflt rest).store k v
-  | _ => .aconst dflt
+def arrayValue (idx : Ty) (dflt : Val) : List Val → Val
+  | k :: v :: rest => (arrayValue idx dflt rest).store k v
+  | _ => .aconst idx dflt
 
 end Sem
 
@@ -170,7 +170,7 @@ def evalOp (I : Interp) (op : Op) (p : Payload) (vs : List Val) : Val :=
   | .strCharAt, _, [a, b] => mkS (strAt (sOf a) (iOf b))
   | .arraySelect, _, [a, i] => a.select i
   | .arrayStore, _, [a, i, v] => a.store i v
-  | .arrayValue, _, d :: rest => arrayValue d rest
+  | .arrayValue, .ty idx, d :: rest => arrayValue idx d rest
   | _, _, _ => .b false      -- pow, algebraic constants, ill-formed applications: outside the semantics
 
 /-- meaning of a node given the meanings of its children as functions of the interpretation -/
@@ -191,5 +191,24 @@ def eval (I : Interp) (t : Term) : Val := t.evalF I
 theorem eval_node (I : Interp) (op : Op) (args : List Term) (p : Payload) :
     eval I (.node op args p) = evalNode op p (args.map (fun a J => eval J a)) I := by
   simp only [eval, Term.evalF]
+
+end PySMT
+
+namespace PySMT
+
+/-- "a division by zero is evaluated": some `div` sub-term has a divisor that evaluates to
+zero (under `I`, or under some instantiation of the enclosing binders). Interpretations
+with `div0 I t` are the ones C01/C02 leave unconstrained. -/
+def div0Node (op : Op) (p : Payload) (fs : List ((Interp → Val) × (Interp → Bool))) (I : Interp) : Bool :=
+  match op, p, fs with
+  | .forall_, .qvars vs, [f] => I.quant false vs f.2
+  | .exists_, .qvars vs, [f] => I.quant false vs f.2
+  | .div, _, [a, b] => a.2 I || b.2 I || (b.1 I == .i 0) || (b.1 I == .r 0)
+  | _, _, fs => fs.any (fun f => f.2 I)
+
+def Term.div0F : Term → Interp → Bool
+  | .node op args p => div0Node op p (args.map (fun a => (a.evalF, a.div0F)))
+
+def div0 (I : Interp) (t : Term) : Bool := t.div0F I
 
 end PySMT
